@@ -114,7 +114,7 @@ def check_polygon(idx, emb, acc, only=None):
     verts = [E(*LATTICE[i]) for i in idx]
     n = len(verts)
     vq = [Q(v) for v in verts]
-    p = Path(*[Line(verts[i], verts[(i + 1) % n]) for i in range(n)])
+    p = AB.derive_path(Path(*[Line(verts[i], verts[(i + 1) % n]) for i in range(n)]))
     p_rep = Path(*([Line(verts[i], verts[(i + 1) % n]) for i in range(n)] + [Line(verts[0], verts[0])]))
     exact = shoelace(vq)
     scale2 = 16.0 if emb != 'small_far' else 1.0     # area tolerance 1e-12*scale2 (coordinates ~1e3: eps*|p|*size)
@@ -184,8 +184,8 @@ def check_containment(outer_idx, inner_idx, emb, factor, shift, acc):
         acc.filt('retraced_edge_polygon_containment_skipped')
         return
     no, ni = len(ov), len(iv)
-    outer = Path(*[Line(ov[i], ov[(i + 1) % no]) for i in range(no)])
-    inner = Path(*[Line(iv[i], iv[(i + 1) % ni]) for i in range(ni)])
+    outer = AB.derive_path(Path(*[Line(ov[i], ov[(i + 1) % no]) for i in range(no)]))
+    inner = AB.derive_path(Path(*[Line(iv[i], iv[(i + 1) % ni]) for i in range(ni)]))
     oedges = [(oq[i], oq[(i + 1) % no]) for i in range(no)]
     iedges = [(iq[i], iq[(i + 1) % ni]) for i in range(ni)]
     rels = [seg_relation(a, b, c, d) for a, b in iedges for c, d in oedges]
@@ -246,7 +246,7 @@ def mk_curved(spec):
 def check_curved(name, acc):
     spec = dict(CURVED)[name]
     segs = mk_curved(spec)
-    p = Path(*segs)
+    p = AB.derive_path(Path(*segs))
     exact = bezier_exact_area(segs)
     case = {'what': 'curved', 'name': name}
     acc.case(case, cls='area/curved', nontrivial=True)
@@ -285,7 +285,7 @@ def check_curved_enclosure(name, acc, only=None):
     from mc import isect
     spec = dict(CURVED)[name]
     segs = mk_curved(spec)
-    p = Path(*segs)
+    p = AB.derive_path(Path(*segs))
     xs = [complex(q).real for s_ in segs for q in s_.bpoints()]
     ys = [complex(q).imag for s_ in segs for q in s_.bpoints()]
     x0, x1, y0, y1 = min(xs), max(xs), min(ys), max(ys)
@@ -359,7 +359,7 @@ def check_rounded_rect(r, chord, sweep_dir, acc):
         a, b, c = pts[2 * i], pts[2 * i + 1], pts[(2 * i + 2) % 8]
         segs.append(Line(a, b))
         segs.append(Arc(b, complex(r, r), 0, 0, 1, c))
-    p = Path(*segs)
+    p = AB.derive_path(Path(*segs))
     if not sweep_dir:
         p = p.reversed()
     exact = (w * h - (4 - math.pi) * r * r) * (1 if sweep_dir else -1)
@@ -387,6 +387,7 @@ def shards(tier, seed):
     out = [{'what': 'polygons', 'emb': e, 'shard': i} for e in tier_params(tier, seed)['embs'] for i in range(NSH)]
     out += [{'what': 'containment', 'emb': e} for e in tier_params(tier, seed)['embs']]
     out.append({'what': 'curved'})
+    out += AB.provenance_shards(out, tier, lambda d: d['what'] in ('curved', 'containment') or (d['what'] == 'polygons' and (tier == 'thorough' or d['shard'] % 4 == 0)), key='pprov')
     return out
 
 
